@@ -31,7 +31,8 @@ RULE = (
     "across formatter configurations the argument has the same ast.dump and evaluates to an equal value. "
     "For dicts built in another insertion order only the evaluated value is compared (insertion order is "
     "part of a dict's observable value). non-trivial = the value holds a set/frozenset with >= 2 members that "
-    "are str, or not mutually orderable, or only partially ordered."
+    "are str, or not mutually orderable, or only partially ordered; or (every sixth case) a dict with 2-5 distinct "
+    "str keys that a [key] snapshot holding another key gains key by key in one session."
 )
 ASSUMPTIONS = ["one black version (26.5.1); 5 hash seeds and 4 formatter configurations per tier"]
 
@@ -39,7 +40,7 @@ NS = dict(vars(vf_prelude))
 
 SEEDS = {"quick": ["0", "1", "2", "random"], "thorough": ["0", "1", "2", "3", "4", "5", "random", "random"]}
 FORMATS = {"quick": ["black", "noblack"], "thorough": ["black", "noblack", "fmt-cat", "fmt-black"]}
-BATCH = {"quick": 60, "thorough": 1500}
+BATCH = {"quick": 90, "thorough": 1500}
 
 
 def set_values(tier):
@@ -81,8 +82,20 @@ def set_values(tier):
     padded = st.text(alphabet="ab \"'", min_size=1, max_size=6).map(lambda s: ["str", s])
     top = st.one_of(top, top, top, padded, st.lists(padded, min_size=1, max_size=3).map(lambda xs: ["list", xs]),
                     st.lists(st.tuples(strs, padded).map(list), min_size=1, max_size=3,
+                             unique_by=lambda kv: kv[0][1]).map(lambda kv: ["dict", kv]),
+                    # several str keys: also run as a [key] snapshot that gains these keys in one session
+                    st.lists(st.tuples(strs, st.one_of(ints, strs)).map(list), min_size=2, max_size=5,
                              unique_by=lambda kv: kv[0][1]).map(lambda kv: ["dict", kv]))
     return top.filter(gv.sound)
+
+
+def keyed_values():
+    """dicts with several distinct str keys, run as a [key] snapshot that gains these keys in one session"""
+    strs = st.one_of(st.text(alphabet="abcdefgh", min_size=0, max_size=3),
+                     st.text(alphabet="ab \"'", min_size=1, max_size=4)).map(lambda s: ["str", s])
+    ints = st.integers(-5, 20).map(lambda i: ["int", i])
+    return st.lists(st.tuples(strs, st.one_of(ints, strs)).map(list), min_size=2, max_size=5,
+                    unique_by=lambda kv: kv[0][1]).map(lambda kv: ["dict", kv])
 
 
 def module_for(case, variant):
@@ -114,10 +127,21 @@ def module_for(case, variant):
             return f"{x[1]}(**dict([" + ", ".join(f"({n!r}, {r(v)})" for n, v in x[2]) + "]))"
         return gv.render(x)
 
+    head = ("from inline_snapshot import snapshot\nfrom vf_prelude import *\n\n\n"
+            "def churn(ctor, items):\n    s = set(range(1000, 1400))\n    for i in range(1000, 1400):\n"
+            "        s.discard(i)\n    for x in items:\n        s.add(x)\n    return ctor(s) if ctor is frozenset else s\n\n\n")
+    if case.get("mode") == "getitem":
+        # a [key] snapshot that holds one key already and gains the others in the order of their first use
+        pairs = ", ".join(f"({r(a)}, {r(b)})" for a, b in d[1])
+        return (head + f"def test_a():\n    s = snapshot({{{PREV_KEY!r}: 0}})\n    assert 0 == s[{PREV_KEY!r}]\n"
+                f"    for k, v in [{pairs}]:\n        assert v == s[k]\n")
     return ("from inline_snapshot import snapshot\nfrom vf_prelude import *\n\n\n"
             "def churn(ctor, items):\n    s = set(range(1000, 1400))\n    for i in range(1000, 1400):\n"
             "        s.discard(i)\n    for x in items:\n        s.add(x)\n    return ctor(s) if ctor is frozenset else s\n\n\n"
             f"def test_a():\n    assert {r(d)} == snapshot({case.get('prev') or ''})\n")
+
+
+PREV_KEY = "zz-prev"
 
 
 def nontrivial(d):
@@ -135,8 +159,11 @@ def make_batch(tier, seed, n):
     @hseed(seed)
     @settings(max_examples=n, database=None, deadline=None, suppress_health_check=list(HealthCheck),
               phases=[__import__("hypothesis").Phase.generate])
-    @given(set_values(tier))
-    def collect(v):
+    @given(set_values(tier), keyed_values())
+    def collect(v, keyed):
+        if len(cases) % 6 == 5:
+            cases.append({"value": keyed, "variants": 3, "prev": None, "mode": "getitem"})
+            return
         # the snapshot is empty (create) or holds another value of the same shape (fix replaces leaves in place)
         prev = None
         if len(cases) % 2 == 1 and v[0] in ("str", "list", "dict"):
@@ -146,7 +173,12 @@ def make_batch(tier, seed, n):
                 prev = "[" + ", ".join(f"'x{i}'" for i in range(len(v[1]))) + "]"
             else:
                 prev = "{" + ", ".join(f"{gv.natural(k)}: 'x{i}'" for i, (k, _x) in enumerate(v[1])) + "}"
-        cases.append({"value": v, "variants": 3, "prev": prev})
+        case = {"value": v, "variants": 3, "prev": prev}
+        if v[0] == "dict" and len(v[1]) >= 2 and all(k[0] == "str" for k, _x in v[1]) \
+                and len({k[1] for k, _x in v[1]}) == len(v[1]) and len(cases) % 3 != 0:
+            case["mode"] = "getitem"
+            case["prev"] = None
+        cases.append(case)
 
     collect()
     return cases
@@ -264,9 +296,12 @@ def judge(case, per_cell):
             if not (val == ref_val):
                 raise Violation("formatter-changes-value", f"{ref_fmt}: {ref_val!r}  {fmt}: {val!r}")
     want = gv.build(case["value"])
+    if case.get("mode") == "getitem":
+        want = {PREV_KEY: 0, **want}
     if not (ref_val == want and want == ref_val):
         raise Violation("value", f"written {ref_val!r}, observed {want!r}")
-    return {"nontrivial": nontrivial(case["value"]), "classes": [case["value"][0]],
+    return {"nontrivial": nontrivial(case["value"]) or case.get("mode") == "getitem",
+            "classes": [case.get("mode") or case["value"][0]],
             "sample": {"value": gv.render(case["value"]), "written": ref_text}}
 
 
